@@ -25,6 +25,7 @@ RULE = ('(a) every cell of the operator x type x type matrix: 14 binary operator
         'independent typed evaluator (value equality with 1e-12 relative tolerance, probe sequence exact). Non-trivial: (a) operand types '
         'differ or the operator is not defined for them; (b) >= 3 operators, >= 2 operand types and >= 1 probe; (c) the call succeeded. '
         'Distinct by expression text + operand values.')
+RULE += ' Also: (d) datetime +- milliseconds and datetime - datetime over years 1-9999 (offset = distance to a second in-range datetime); (e) 9 call forms x 4 routes in which an argument re-binds or first defines the called name (the name is looked up after the arguments); variables spelled null / true / false (the literal wins); calls to spreadsheet aliases with builtins off.'
 ASSUMPTIONS = [
     'a boolean is not a number (value_type, comparison and validation all treat it as a separate type): arithmetic on booleans yields null',
     'x/0, x%0, % with a negative operand, 0**-1, negative**fractional and overflow are indeterminate: the case is discarded for the '
